@@ -19,11 +19,15 @@ CHECKS = {
              "variables, guards, updates, returned terms): Poisson/Knuth, StandardGeometric, Binomial::new (method switch, flip, Binv and Btpe constants "
              "incl. p1 = floor(2.195 sqrt(npq) - 4.6 q) + 0.5), BINV (recurrence r *= a/x - s, restart at 110, reflection) and BTPE (Kachitvichyanukul & "
              "Schmeiser: regions 1-4 with c, lambda_l/r, p2..p4, the region-4 guards, step 5.0 switch, both step-5.1 recursions, the squeeze of 5.2 "
-             "with rho and t, the final test of 5.3 with the Stirling corrections and their signs, the reflection). Every comparison is a test of the reference, the decision "
-             "functions agree on every feasible truth assignment, returned terms and derived constants are identical over the reals.",
+             "with rho and t, the final test of 5.3 with the Stirling corrections and their signs, the reflection), Geometric (trivial algorithm for p >= 2/3; "
+             "Bringmann-Friedrich otherwise: D counted below pi, M = w & (2^k - 1) accepted with probability (1-p)^M on both the powi and the powf branch, result "
+             "D 2^k + M) and Hypergeometric HIN (start from initial_p/initial_x, pmf-ratio recurrence, the order of u -= p, the x < k bound, the result "
+             "offset_x + sign_x x). Every comparison is a test of the reference (integer comparisons including their strictness), the decision "
+             "functions agree on every feasible truth assignment, returned terms, updates of the carried variables and derived constants are identical over the reals.",
         design_ref="DESIGN.md 5/C02 and 11.9",
-        note="PARTIAL: Poisson's rejection method (Ahrens-Dieter), Geometric and Hypergeometric (HIN, H2PE) are NOT examined by this check yet (listed in the evidence "
-             "notes) — for those nothing of C02 is decided. `as u64` / `as f64` casts are transparent in the terms (floor of a cast is not modelled). "
+        note="PARTIAL: Poisson's rejection method (Ahrens-Dieter), Hypergeometric's H2PE sampler (its paths are marked `unspecified` in the reference and skipped) and "
+             "Hypergeometric::new (set-up constants and the HIN/H2PE switch; a reference is written down but not armed because the extractor leaves some of its "
+             "temporaries unresolved) are NOT examined by this check (listed in the evidence notes) — for those nothing of C02 is decided. `as u64` / `as f64` casts are transparent in the terms (floor of a cast is not modelled). "
              "NOT decided anywhere: the probability mass function (that the references have the documented pmf is a cited theorem), the numerical "
              "accuracy of the acceptance test for huge proposals (the Zeta(1.05) deviation named in the property is of that kind).",
         technique="decision-structure and transition-system extraction from rustc MIR (cut points at loop headers, path-sensitive values of loop-carried variables) + computer-algebra identity and path-pair comparison against transcribed reference algorithms",
